@@ -243,5 +243,5 @@ func c04Gen(t *rapid.T) c04Case {
 func init() {
 	vfRapid("C04/content-hash",
 		"non-trivial = a tampering was applied that changed the hashed bytes, the hash itself, or a key stripped on receipt; distinct = distinct Case JSON",
-		1500, 40000, 16, c04Gen, c04Check)
+		1500, 160000, 16, c04Gen, c04Check)
 }
